@@ -117,6 +117,10 @@ where
                 });
                 (
                     Box::new(move || {
+                        // Nothing to reconcile if the list is not mounted (yet).
+                        let Some(parent) = start_node.parent_node() else {
+                            return;
+                        };
                         // Get all nodes between start and end and reconcile with new nodes.
                         let mut new = flattened.get_clone();
                         let mut old = utils::get_nodes_between(&start_node, &end_node);
@@ -125,9 +129,7 @@ where
                         new.push(end_node.clone());
                         old.push(end_node.clone());
 
-                        if let Some(parent) = start_node.parent_node() {
-                            reconcile_fragments(&parent, &mut old, &new);
-                        }
+                        reconcile_fragments(&parent, &mut old, &new);
                     }) as Box<dyn FnMut()>,
                     (start, view, end).into(),
                 )
@@ -219,6 +221,10 @@ where
                 });
                 (
                     Box::new(move || {
+                        // Nothing to reconcile if the list is not mounted (yet).
+                        let Some(parent) = start_node.parent_node() else {
+                            return;
+                        };
                         // Get all nodes between start and end and reconcile with new nodes.
                         let mut new = flattened.get_clone();
                         let mut old = utils::get_nodes_between(&start_node, &end_node);
@@ -227,9 +233,7 @@ where
                         new.push(end_node.clone());
                         old.push(end_node.clone());
 
-                        if let Some(parent) = start_node.parent_node() {
-                            reconcile_fragments(&parent, &mut old, &new);
-                        }
+                        reconcile_fragments(&parent, &mut old, &new);
                     }) as Box<dyn FnMut()>,
                     (start, view, end).into(),
                 )
